@@ -321,6 +321,8 @@ class Translator:
             if ast.unparse(r) in ("1 / 3.0", "1 / 3", "1.0 / 3", "1.0 / 3.0") and base[1] == "R":
                 return ("(cbrt %s)" % base[0], "R")
             ex = self.expr(r, env)
+            if ex[1] == "N" and isinstance(e.left, ast.Constant) and isinstance(e.left.value, int) and not isinstance(e.left.value, bool) and e.left.value >= 0:
+                return ("(%d ^ %s)" % (e.left.value, ex[0]), "N")       # an integer power of an integer constant
             if ex[1] == "B" and base[1] == "R" and ex[0] in ("true", "false"):
                 return (base[0] if ex[0] == "true" else "(lit 1 : α)", "R")
             if ex[1] == "N" and base[1] == "C":
@@ -357,6 +359,8 @@ class Translator:
                 return ("(%s %s %s)" % (a[0], sym, b[0]), "N")
         if ta == "N" and tb == "R" and isinstance(op, ast.Add) and b[0].startswith("(lit "):
             return ("(%s + %s)" % (a[0], b[0][5:-5]), "N")
+        if ta == "N" and tb == "R" and isinstance(op, ast.Sub) and b[0].startswith("(lit ") and "^" in a[0]:
+            return ("(%s - %s)" % (a[0], b[0][5:-5]), "N")      # 2**k - 1: a count (truncated subtraction never truncates here, 2**k >= 1)
         if ta == "N":
             a = (self.coerce(a, "R"), "R")
             ta = "R"
@@ -446,6 +450,12 @@ class Translator:
             if v[1] == "R":
                 return v
             raise Unsupported("conj of %s" % v[1])
+        if short in ("maximum", "minimum") and len(args) == 2:
+            a, b = self.expr(args[0], env), self.expr(args[1], env)
+            if (a[1], b[1]) == ("R", "R"):
+                # np.maximum(a, b) / np.minimum(a, b) entry by entry (NaN aside)
+                return ("(if %s < %s then %s else %s)" % ((a[0], b[0], b[0], a[0]) if short == "maximum" else (b[0], a[0], b[0], a[0])), "R")
+            raise Unsupported("%s of non-reals" % short)
         if short == "arctan2" and len(args) == 2:
             a, b = self.expr(args[0], env), self.expr(args[1], env)
             if (a[1], b[1]) == ("R", "R"):
@@ -878,6 +888,17 @@ class Translator:
             if a.arg != "self" and a.arg not in declared and not any(k.startswith(a.arg + ".") or k.startswith(a.arg + "[") for k in declared):
                 raise Unsupported("new parameter %s" % a.arg)
         stmts = self.body_of(fn)
+        for head in spec.get("within", []):
+            # descend into the body of the `if` statement that starts with this text
+            inner = next((st for st in stmts if isinstance(st, ast.If) and ast.unparse(st).startswith(head)), None)
+            if inner is None:
+                raise Unsupported("statement %r not found" % head)
+            stmts = inner.body
+        if spec.get("start"):
+            first = next((j for j, st in enumerate(stmts) if ast.unparse(st).startswith(spec["start"])), None)
+            if first is None:
+                raise Unsupported("statement %r not found" % spec["start"])
+            stmts = stmts[first:]
         if spec.get("until"):
             cut = next((j for j, st in enumerate(stmts) if ast.unparse(st).startswith(spec["until"])), None)
             if cut is None:
@@ -1053,6 +1074,20 @@ FOURIER_SPECS = [
          params=[("get_spacing(c)", "spacing", "R"), ("len(c)", "dim", "N")], ignore_params=["c"]),
 ]
 
+VIS_SPECS = [
+    # the pointwise scaling of display_image (what save_image applies before quantisation): one pixel, explicit (lo, hi)
+    dict(fn="display_image", lean="display_scale", start="if scaling == 'auto'", until="im.attrs = attrs",
+         static={"scaling == 'auto'": False, "scaling is not None": True},
+         params=[("scaling[0]", "lo", "R"), ("scaling[1]", "hi", "R"), ("im", "v", "R")],
+         ignore_params=["scaling", "vert_axis", "horiz_axis", "depth_axis", "colour_axis"], outputs=[("im", "R")]),
+]
+
+SAVE_SPECS = [
+    # `_save_im`: the value handed to the integer cast, for the depth in bits left after the sign bit is taken off (8, 15, 31)
+    dict(fn="_save_im", lean="save_im_prequant", within=["if depth != 'float'", "if im.max() <= 1"], until="im = im.astype",
+         params=[("depth", "depth", "N"), ("im", "v", "R")], ignore_params=["filename"], outputs=[("im", "R")]),
+]
+
 MODEL_SPECS = [
     # the array reductions are inputs: N = data.size, the mean log noise level, the sum of squared scaled residuals
     dict(cls="Model", fn="_lnlike", lean="Model_lnlike", ret="R", identity_calls=["ensure_scalar"],
@@ -1072,6 +1107,8 @@ FILES = {
     "PyModel": ("holopy/inference/model.py", ["HoloModel.Scalar"], MODEL_SPECS, "pyModelFailures"),
     "PyPropagate": ("holopy/propagation/convolution_propagation.py", ["HoloModel.Fourier"], PROPAGATION_SPECS, "pyPropagateFailures"),
     "PyFourier": ("holopy/core/process/fourier.py", ["HoloModel.Fourier"], FOURIER_SPECS, "pyFourierFailures"),
+    "PyVis": ("holopy/core/io/vis.py", ["HoloModel.Scalar"], VIS_SPECS, "pyVisFailures"),
+    "PySave": ("holopy/core/io/io.py", ["HoloModel.Scalar"], SAVE_SPECS, "pySaveFailures"),
     "PyMie": ("holopy/scattering/theory/mie.py", ["HoloModel.Scalar"], MIE_SPECS, "pyMieFailures"),
 }
 
